@@ -91,6 +91,8 @@ namespace Serde
 
 /-- treemap/serde.rs:46-56 `impl Serialize for RoaringTreemap` (the same code as for `RoaringBitmap`) -/
 def tserEvents (t : Treemap) : List Event := serEventsOf Treemap.serialize t
+/-- the same over the exact encoder (`Treemap.serializeM`); `none` = panic -/
+def tserEventsM (ovf : Bool) (t : Treemap) : Option (List Event) := serEventsOfM (Treemap.serializeM ovf) t
 
 /-- treemap/serde.rs:22-41: `visit_bytes` / `visit_seq` run `RoaringTreemap::deserialize_from` (checked) -/
 def tvisitBytes (dbg : Bool) := visitBytesOf (Treemap.deserialize true dbg)
